@@ -80,6 +80,7 @@ func procTreeChild(args []string) {
 	fmt.Sscan(args[0], &si)
 	start, stop := args[1], args[2]
 	fmt.Sscan(args[3], &atMs)
+	reuse := len(args) > 4 && args[4] == "1"
 	at := time.Duration(atMs) * time.Millisecond
 	shape := treeShapes[si]
 	res := procResult{}
@@ -99,6 +100,22 @@ func procTreeChild(args []string) {
 		res.Err = "new: " + err.Error()
 		emit()
 		return
+	}
+	if reuse {
+		// the same Subprocess object has already been through one start / stop cycle
+		if err := p.Start(); err == nil {
+			for t1 := time.Now(); time.Since(t1) < 2*time.Second && len(pidRe.FindAllString(loggers.GetLogContent(), -1)) < strings.Count(shape.script, "PID:"); {
+				time.Sleep(5 * time.Millisecond)
+			}
+			first := pidRe.FindAllStringSubmatch(loggers.GetLogContent(), -1)
+			_ = p.Stop()
+			time.Sleep(100 * time.Millisecond)
+			for _, m := range first {
+				n, _ := strconv.Atoi(m[1])
+				_ = syscall.Kill(n, syscall.SIGKILL)
+			}
+		}
+		_ = loggers.Close() // forget the pids of the first cycle
 	}
 	execDone := make(chan struct{})
 	t0 := time.Now()
@@ -176,7 +193,7 @@ func procTreeChild(args []string) {
 
 func procTreeMain(args []string) {
 	o := hx.ParseOpts(args)
-	rep := hx.NewReport("process trees (single, chain of three, fan of three, background child holding the output pipes, descendant / root ignoring SIGTERM, parent exiting before its child) x start {Execute, Start} x stop {context cancel, context deadline, Cancel(), Stop()} x stop instant {right after the spawn, 30 ms, 150 ms}; " +
+	rep := hx.NewReport("process trees (single, chain of three, fan of three, background child holding the output pipes, descendant / root ignoring SIGTERM, parent exiting before its child) x start {Execute, Start} x stop {context cancel, context deadline, Cancel(), Stop()} x stop instant {right after the spawn, 30 ms, 150 ms}, plus the same object reused after a first start / stop cycle; " +
 		"each case in its own process; bound for Execute() / Stop() to return after the stop request: 3 s. non-trivial = the tree has at least one descendant; distinct = (shape, start, stop, instant).")
 	instants := []int{0, 30, 150}
 	if !o.Thorough() {
@@ -187,13 +204,18 @@ func procTreeMain(args []string) {
 		si          int
 		start, stop string
 		at          int
+		reuse       bool
 	}
 	var jobs []job
 	for si := range treeShapes {
 		for _, start := range []string{"Execute", "Start"} {
 			for _, stop := range []string{"ctx-cancel", "ctx-deadline", "Cancel", "Stop"} {
 				for _, at := range instants {
-					jobs = append(jobs, job{si, start, stop, at})
+					jobs = append(jobs, job{si, start, stop, at, false})
+				}
+				// a Subprocess object that has already been started and stopped once (Restart, repeated Execute)
+				if treeShapes[si].name == "fan" || treeShapes[si].name == "chain" || o.Thorough() {
+					jobs = append(jobs, job{si, start, stop, 30, true})
 				}
 			}
 		}
@@ -207,8 +229,12 @@ func procTreeMain(args []string) {
 		go func(j job) {
 			defer func() { <-sem; wg.Done() }()
 			shape := treeShapes[j.si]
-			caseTxt := fmt.Sprintf("proccase %s start=%s stop=%s at=%dms", shape.name, j.start, j.stop, j.at)
-			cmd := exec.Command(exe, "proctree-child", fmt.Sprint(j.si), j.start, j.stop, fmt.Sprint(j.at))
+			caseTxt := fmt.Sprintf("proccase %s start=%s stop=%s at=%dms reused=%v", shape.name, j.start, j.stop, j.at, j.reuse)
+			ru := "0"
+			if j.reuse {
+				ru = "1"
+			}
+			cmd := exec.Command(exe, "proctree-child", fmt.Sprint(j.si), j.start, j.stop, fmt.Sprint(j.at), ru)
 			var out bytes.Buffer
 			cmd.Stdout = &out
 			_ = cmd.Start()
